@@ -1,6 +1,8 @@
-// h_C01.cpp — harness for C01: KFCorrection over an LTIMeasurementModel that
-// serves the case's measurement.  Operands: H, R, y, means (n x comps),
-// covs (n x n*comps), weights (comps x 1), junk (scalar filler for the output object).
+// h_C01.cpp — harness for C01: ONE KFCorrection object over an LTIMeasurementModel that
+// serves the case's measurement, driven through `steps` successive corrections (each with its own
+// H, R, y, predicted belief — dimensions and component counts may change between steps), with
+// getLikelihood() queried after every correction.  Operands of step t: H_s<t>, R_s<t>, y_s<t>,
+// means_s<t> (n x comps), covs_s<t> (n x n*comps), weights_s<t> (comps x 1).
 #define VF_MAIN
 #include "common.hpp"
 #include <BayesFilters/GaussianMixture.h>
@@ -14,6 +16,7 @@ using namespace Eigen;
 struct ServedLTI : public LTIMeasurementModel {
     MatrixXd y_;
     ServedLTI(const MatrixXd& H, const MatrixXd& R, const MatrixXd& y) : LTIMeasurementModel(H, R), y_(y) {}
+    void set(const MatrixXd& H, const MatrixXd& R, const MatrixXd& y) { H_ = H; R_ = R; y_ = y; }
     bool freeze(const Data&) override { return true; }
     std::pair<bool, Data> measure(const Data&) const override { return std::make_pair(true, Data(y_)); }
 };
@@ -21,37 +24,46 @@ struct ServedLTI : public LTIMeasurementModel {
 int main() {
     vf::Case c;
     while (vf::read_case(std::cin, c)) {
-        const MatrixXd& H = c.mat("H"); const MatrixXd& R = c.mat("R"); const MatrixXd& y = c.mat("y");
-        const MatrixXd& means = c.mat("means"); const MatrixXd& covs = c.mat("covs");
-        const long n = means.rows(), comps = means.cols();
-        GaussianMixture pred(comps, n);
-        pred.mean() = means; pred.covariance() = covs;
-        if (c.has_mat("weights")) pred.weight() = c.mat("weights");
-        GaussianMixture pred_copy(pred);
-        GaussianMixture corr(comps, n);
-        corr.mean().setConstant(7.25); corr.covariance().setConstant(-3.5); corr.weight().setConstant(0.125);
-        KFCorrection kf(std::unique_ptr<LinearMeasurementModel>(new ServedLTI(H, R, y)));
-        {
-            vf::Entry e("KFCorrection::correct");
-            kf.freeze_measurements();
-            kf.correct(pred, corr);
-        }
-        bool ok; VectorXd lik;
-        { vf::Entry e("KFCorrection::getLikelihood"); std::tie(ok, lik) = kf.getLikelihood(); }
+        const long steps = c.mi("steps", 1);
+        ServedLTI* served = new ServedLTI(c.mat("H_s0"), c.mat("R_s0"), c.mat("y_s0"));
+        KFCorrection kf((std::unique_ptr<LinearMeasurementModel>(served)));
         vf::out_begin(c.id);
-        vf::out_int("components", corr.components);
-        for (long i = 0; i < comps; i++) {
-            vf::out_mat("mean" + std::to_string(i), corr.mean(i));
-            vf::out_mat("cov" + std::to_string(i), corr.covariance(i));
-            vf::out_num("lik" + std::to_string(i), ok && i < lik.size() ? lik(i) : NAN);
+        for (long t = 0; t < steps; t++) {
+            const std::string s = "_s" + std::to_string(t);
+            const MatrixXd& means = c.mat("means" + s); const MatrixXd& covs = c.mat("covs" + s);
+            served->set(c.mat("H" + s), c.mat("R" + s), c.mat("y" + s));
+            const long n = means.rows(), comps = means.cols();
+            GaussianMixture pred(comps, n);
+            pred.mean() = means; pred.covariance() = covs;
+            if (c.has_mat("weights" + s)) pred.weight() = c.mat("weights" + s);
+            GaussianMixture pred_copy(pred);
+            GaussianMixture corr(comps, n);
+            corr.mean().setConstant(7.25); corr.covariance().setConstant(-3.5); corr.weight().setConstant(0.125);
+            {
+                vf::Entry e("KFCorrection::correct");
+                kf.freeze_measurements();
+                kf.correct(pred, corr);
+            }
+            bool ok; VectorXd lik;
+            { vf::Entry e("KFCorrection::getLikelihood"); std::tie(ok, lik) = kf.getLikelihood(); }
+            // a second query must return the same values (no hidden state consumed by the query)
+            bool ok2; VectorXd lik2;
+            { vf::Entry e("KFCorrection::getLikelihood"); std::tie(ok2, lik2) = kf.getLikelihood(); }
+            vf::out_int("components" + s, corr.components);
+            for (long i = 0; i < comps; i++) {
+                vf::out_mat("mean" + std::to_string(i) + s, corr.mean(i));
+                vf::out_mat("cov" + std::to_string(i) + s, corr.covariance(i));
+                vf::out_num("lik" + std::to_string(i) + s, ok && i < lik.size() ? lik(i) : NAN);
+            }
+            vf::out_int("lik_valid" + s, ok ? 1 : 0);
+            vf::out_int("lik_size" + s, lik.size());
+            vf::out_int("lik_requery_same" + s, (ok == ok2 && vf::bit_equal(lik, lik2)) ? 1 : 0);
+            vf::out_int("pred_unchanged" + s, vf::bit_equal(pred.mean(), pred_copy.mean()) && vf::bit_equal(pred.covariance(), pred_copy.covariance())
+                                              && vf::bit_equal(pred.weight(), pred_copy.weight()) ? 1 : 0);
+            bool wkept = true;
+            for (long i = 0; i < comps; i++) wkept = wkept && corr.weight(i) == 0.125;
+            vf::out_int("out_weights_kept" + s, wkept ? 1 : 0);
         }
-        vf::out_int("lik_valid", ok ? 1 : 0);
-        vf::out_int("lik_size", lik.size());
-        vf::out_int("pred_unchanged", vf::bit_equal(pred.mean(), pred_copy.mean()) && vf::bit_equal(pred.covariance(), pred_copy.covariance())
-                                          && vf::bit_equal(pred.weight(), pred_copy.weight()) ? 1 : 0);
-        bool wkept = true;
-        for (long i = 0; i < comps; i++) wkept = wkept && corr.weight(i) == 0.125;
-        vf::out_int("out_weights_kept", wkept ? 1 : 0);
         vf::out_end();
     }
     return 0;
